@@ -120,7 +120,13 @@ func genSchema(t *rapid.T, o *WorldOpts) *schema {
 	// offsets, kilobyte terms, 70 kB / 200 kB stored values
 	s.extreme = !o.NoExtremes && rapid.IntRange(0, 59).Draw(t, "extremes") == 0
 	if s.extreme && rapid.IntRange(0, 2).Draw(t, "manyfields") == 0 {
-		n := rapid.SampledFrom([]int{62, 63, 64, 65, 66, 126, 127, 128, 129, 130, 260}).Draw(t, "nmany")
+		// total number of fields of a segment holding all of them (incl. _id)
+		target := rapid.SampledFrom([]int{63, 64, 65, 66, 127, 128, 129, 130, 257}).Draw(t, "nmany")
+		have := map[string]bool{model.IDField: true}
+		for _, f := range s.fields {
+			have[f] = true
+		}
+		n := target - len(have)
 		for i := 0; i < n; i++ {
 			name := fmt.Sprintf("m%03d", i)
 			s.fields = append(s.fields, name)
@@ -266,6 +272,25 @@ func genField(t *rapid.T, s *schema) model.Field {
 func genDoc(t *rapid.T, s *schema) model.Doc {
 	nf := rapid.IntRange(0, 4).Draw(t, "ndocfields")
 	d := model.Doc{}
+	if len(s.fields) > 20 && rapid.IntRange(0, 3).Draw(t, "widedoc") == 0 {
+		// one instance of every field: the segment then has exactly as many
+		// fields as the schema
+		for i, name := range s.fields {
+			f := model.Field{Name: name, Terms: []model.Term{{T: model.Bytes(s.terms[i%len(s.terms)]), N: 1}}}
+			if name == "so" {
+				f.Terms = nil
+			}
+			if s.dv[name] && strings.Contains(string(f.Terms0()), "\xff") {
+				f.Terms = []model.Term{{T: model.Bytes("nff"), N: 1}}
+			}
+			if i%2 == 0 || i == len(s.fields)-1 {
+				f.Store = true
+				f.Val = model.Bytes(fmt.Sprintf("wide-%d", i))
+			}
+			d.Fields = append(d.Fields, f)
+		}
+		return d
+	}
 	if len(s.fields) > 20 && rapid.IntRange(0, 1).Draw(t, "edgefields") == 0 {
 		// worlds with very many fields: exercise the highest field ids
 		for _, name := range []string{s.fields[len(s.fields)-1], s.fields[len(s.fields)-2]} {
